@@ -25,13 +25,15 @@ META = {
 
 KEYS = ['nil', 'nil', 'empty', 'a', 'b', 'a', 'big']
 VCS = ['short'] * 7 + ['nil', 'empty', 'big']
-HCS = ["nil", "nil", "empty", "one", "two", "emptyval", "nilval"]
+HCS = ["nil", "nil", "empty", "one", "two", "emptyval", "nilval", "mixed2", "mixed3"]
+# index pre-allocation in bytes (20 per entry; 0 = the default 10 MiB, never outgrown by these logs)
+IDX = [0, 40, 60, 80, 100]
 
 
 def decorate(beh, rng, bid, hcs=HCS):
     """TLC behaviour (list of sim steps) -> stimulus for the Go harness"""
     first = core.tlaval.state_var(beh[0]['body'], 'cfg')
-    out = {'id': bid, 'cfg': {'maxBytes': first['maxBytes'] * 128, 'occ': first['occ']}, 'steps': []}
+    out = {'id': bid, 'cfg': {'maxBytes': first['maxBytes'] * 128, 'occ': first['occ'], 'idx': rng.choice(IDX)}, 'steps': []}
     for st in beh[1:]:
         a = dict(st['last'])
         if a['a'] in ('Append', 'AppendSet'):
@@ -40,6 +42,8 @@ def decorate(beh, rng, bid, hcs=HCS):
                 recs.append({'ep': r['ep'], 'ts': r['ts'], 'val': r['val'], 'sz': r['sz'],
                              'exp': r.get('exp', -1), 'key': rng.choice(KEYS), 'vc': rng.choice(VCS),
                              'hc': rng.choice(hcs)})
+                if 'off' in r:
+                    recs[-1]['off'] = r['off']
             a['recs'] = recs
         out['steps'].append(a)
     return out
